@@ -53,6 +53,8 @@ def run(ctx):
         for k in range(min(header, len(rows))):
             if len(rows[k]) != len(fields):
                 rows[k] = [engine.pad(f["good"][0], f.get("width", 0)) for f in fields]  # header rows are written unvalidated: keep them well-shaped
+        if fmt == "delimited" and header >= 1 and rows and rows[0] and rnd.random() < 0.4:
+            rows[0][0] = "two\nlines"   # a heading that spans two lines of the written file is still one header row
         scns.append({"format": fmt, "allowed": None, "fields": fields, "checks": engine.gen_checks(rnd, fields), "header": header,
                      "line": rnd.choice(["lf", "cr", "crlf", "any", "none"]),
                      "runs": [{"kind": "W", "rows": rows, "close": True, "batch": rnd.random() < 0.5}]})
